@@ -196,7 +196,7 @@ struct Plan
     const std::string& t = P->text;
     if (i < nPrefix) { m = {"truncate", titleAt(i), t.substr(0, i), "prefix of " + std::to_string(i) + " bytes", "truncated=" + cutClass(i)}; return true; }
     i -= nPrefix;
-    if (i < nGarbage) { m = {"truncate-garbage", titleAt(i), t.substr(0, i) + "x9", "prefix of " + std::to_string(i) + " bytes + 'x9'", "truncated=" + cutClass(i)}; return true; }
+    if (i < nGarbage) { m = {"truncate-garbage", titleAt(i), t.substr(0, i) + "x9", "prefix of " + std::to_string(i) + " bytes + 'x9'", "truncated+garbage=" + cutClass(i)}; return true; }
     i -= nGarbage;
     if (i < nTok)
     {
